@@ -33,6 +33,9 @@ var vschedSrc []byte
 //go:embed assets/sched_driver.go.txt
 var driverSrc []byte
 
+//go:embed assets/sched_main_driver.go.txt
+var mainDriverSrc []byte
+
 const modPath = "github.com/berquerant/crd"
 
 func load(repo string, patterns ...string) ([]*packages.Package, error) {
@@ -171,8 +174,18 @@ type SchedResult struct {
 
 // Sched rewrites the goroutine/channel/sync constructs of the packages on the classifier's
 // call path (input/ast, astconv) to the cooperative scheduler and adds the driver.
-func Sched(repo, outDir string) (*SchedResult, error) {
-	pkgs, err := load(repo, "./input/ast", "./astconv")
+func Sched(repo, outDir string) (*SchedResult, error) { return sched(repo, outDir, false) }
+
+// SchedMain does the same for package main (cmd) as well and adds a driver *inside* package
+// main, so that goroutines on the whole `text conv` path are under the scheduler.
+func SchedMain(repo, outDir string) (*SchedResult, error) { return sched(repo, outDir, true) }
+
+func sched(repo, outDir string, withMain bool) (*SchedResult, error) {
+	patterns := []string{"./input/ast", "./astconv"}
+	if withMain {
+		patterns = append(patterns, "./cmd", "./util", "./op", "./note", "./input")
+	}
+	pkgs, err := load(repo, patterns...)
 	if err != nil {
 		return nil, err
 	}
@@ -390,11 +403,19 @@ func Sched(repo, outDir string) (*SchedResult, error) {
 		return nil, err
 	}
 	repl[filepath.Join(repo, "vsched", "vsched.go")] = vsf
-	drv := filepath.Join(outDir, "sched_driver.go")
-	if err := os.WriteFile(drv, driverSrc, 0o644); err != nil {
-		return nil, err
+	if withMain {
+		drv := filepath.Join(outDir, "sched_main_driver.go")
+		if err := os.WriteFile(drv, mainDriverSrc, 0o644); err != nil {
+			return nil, err
+		}
+		repl[filepath.Join(repo, "cmd", "zz_verif_sched_main.go")] = drv
+	} else {
+		drv := filepath.Join(outDir, "sched_driver.go")
+		if err := os.WriteFile(drv, driverSrc, 0o644); err != nil {
+			return nil, err
+		}
+		repl[filepath.Join(repo, "zz_verif_sched", "main.go")] = drv
 	}
-	repl[filepath.Join(repo, "zz_verif_sched", "main.go")] = drv
 	res.Overlay, err = writeOverlay(outDir, repl)
 	return res, err
 }
